@@ -79,7 +79,12 @@ def cleared_before(b, bb, op, f, depth=0):
                 if call_matches(dt, ['Vec::<T, A>::drain', 'Vec::<T, A>::clear']) and b.dominates(dbb, bb):
                     do = origin(b, dt['args'][0])
                     if do.fields == src.fields and do.params() == src.params():
-                        drained = True
+                        if call_matches(dt, ['Vec::<T, A>::clear']):
+                            drained = True
+                        else:
+                            # only a full-range drain empties the vector
+                            ro = origin(b, dt['args'][1])
+                            drained = any(a[0] == 'agg' and a[1].endswith('RangeFull') for a in ro.atoms) and len(ro.atoms) == 1
             if fresh and drained:
                 return True, 'mem::replace(&mut x, Vec::new()) of a vector drained just before'
     return False, 'no dominating clear of the inserted value'
